@@ -177,7 +177,71 @@ def build(root=None):
     root = root or repo_root()
     cfg = OW.Config(int_sites=INT_SITES)
     an = OW.Analyzer(root, TARGETS + CONTEXT, cfg).run()
-    return an, Orders(an).obligations()
+    return an, Orders(an).obligations() + key_obligations(root)
+
+
+# ---------------------------------------------------------------------------
+# sort keys are invariant under a uniform shift of symbol ids
+#
+# "independent of how many symbols were created earlier": an order may depend on
+# Syms only through Sym.__lt__ (value contract above: invariant under a shift of
+# _id).  A key that turns a value into text or a number by repr / str / format /
+# f-string / id / hash compares decimal renderings of ids (or addresses): 'i_10' <
+# 'i_8' flips with the counter.  One obligation per keyed ordering call
+# (sorted / .sort / min / max) in the target files, whatever is being ordered.
+
+_TEXTUAL = {"repr", "str", "id", "hash", "format", "ascii"}
+TEXT_KEYS = {}      # (file, qualname, key text) -> why the rendered values cannot contain symbol ids
+
+
+def key_obligations(root):
+    out = []
+    for rel in TARGETS:
+        path = os.path.join(root, rel)
+        if not os.path.exists(path):
+            continue
+        tree = ast.parse(open(path).read())
+        for n in ast.walk(tree):
+            for ch in ast.iter_child_nodes(n):
+                ch._parent = n
+        counters = {}
+        for n in ast.walk(tree):
+            if not isinstance(n, ast.Call):
+                continue
+            fn = n.func
+            name = fn.id if isinstance(fn, ast.Name) else fn.attr if isinstance(fn, ast.Attribute) else None
+            if name not in ("sorted", "sort", "min", "max"):
+                continue
+            key = next((k.value for k in n.keywords if k.arg == "key"), None)
+            if key is None:
+                continue
+            f = _func_of(n)
+            quals = []
+            while f is not None and not isinstance(f, ast.Module):
+                quals.append(f.name)
+                f = _func_of(f)
+            qual = ".".join(reversed(quals)) or "<module>"
+            text = ast.unparse(key)
+            base = f"{rel}::{qual}::order.key-shift-invariant({text})"
+            k = counters[base] = counters.get(base, 0) + 1
+            bad = []
+            if isinstance(key, ast.Name) and key.id in _TEXTUAL:
+                bad.append(key.id)
+            for x in ast.walk(key):
+                if isinstance(x, ast.Call) and isinstance(x.func, ast.Name) and x.func.id in _TEXTUAL:
+                    bad.append(x.func.id)
+                if isinstance(x, ast.Call) and isinstance(x.func, ast.Attribute) and x.func.attr in ("format", "__repr__", "__str__"):
+                    bad.append("." + x.func.attr)
+                if isinstance(x, ast.JoinedStr):
+                    bad.append("f-string")
+            why_ok = TEXT_KEYS.get((rel, qual, text))
+            ok = not bad or why_ok is not None
+            out.append(dict(id=f"{base}#{k}", file=rel, qual=qual, kind="key", line=n.lineno, text=text, ok=ok,
+                            why=(why_ok or "the key compares attributes / Syms directly (no textual or numeric rendering)")
+                            if ok else f"the key renders values with {sorted(set(bad))}: the order of two symbols then "
+                                       f"depends on the decimal text of their ids, i.e. on how many symbols were created earlier",
+                            roots=[], rec=None))
+    return out
 
 
 def _stmt_of(node):
